@@ -321,7 +321,7 @@ func newEnvPickler() pickle.PicklerFunc {
 
 // envPickler provides support for pickling functions and modules.
 //
-// - Builtins are pickled as (NEWOBJ "dawn" "Builtin" ())
+// - Builtins are pickled as (NEWOBJ "dawn" "Builtin" (name, receiver)); the receiver of an unbound builtin is None
 // - The placeholder default of a required keyword-only parameter is pickled as (NEWOBJ "dawn" "Required" ())
 // - Function code is pickled as (NEWOBJ "dawn" "FunctionCode" (module, globals, bytecode))
 // - Functions are pickled as (NEWOBJ "dawn" "Function" (defaults, freevars, code)).
@@ -333,7 +333,11 @@ func envPickler(x starlark.Value) (module, name string, args starlark.Tuple, err
 	case *function:
 		return "dawn", "Target", starlark.Tuple{starlark.String(x.label.String())}, nil
 	case *starlark.Builtin:
-		return "dawn", "Builtin", starlark.Tuple{}, nil
+		receiver := x.Receiver()
+		if receiver == nil {
+			receiver = starlark.None
+		}
+		return "dawn", "Builtin", starlark.Tuple{starlark.String(x.Name()), receiver}, nil
 	case *starlark.FunctionCode:
 		module, globals := x.ModuleEnv()
 		return "dawn", "FunctionCode", starlark.Tuple{module, globals, starlark.Bytes(x.Bytecode())}, nil
@@ -351,7 +355,7 @@ func envPickler(x starlark.Value) (module, name string, args starlark.Tuple, err
 
 // envUnpickler provides support for unpickling functions and modules.
 //
-//   - Builtins are unpickled from (NEWOBJ "dawn" "Builtin" ()) into ()
+//   - Builtins are unpickled from (NEWOBJ "dawn" "Builtin" (name, receiver)) into (name, receiver)
 //   - Function code is unpickled from (NEWOBJ "dawn" "FunctionCode" (module, globals, bytecode))
 //     into a dictionary.
 //   - Functions are unpickled from (NEWOBJ "dawn" "Function" (defaults, freevars, code))
@@ -373,8 +377,8 @@ func envUnpickler(module, name string, args starlark.Tuple) (starlark.Value, err
 		}
 		return starlark.Tuple{starlark.String("recursive reference"), args[0]}, nil
 	case "Builtin":
-		if len(args) != 0 {
-			return nil, fmt.Errorf("expected 0 args, got %v", len(args))
+		if len(args) != 2 {
+			return nil, fmt.Errorf("expected 2 args, got %v", len(args))
 		}
 		return args, nil
 	case "Required":
